@@ -102,6 +102,18 @@ PROPS["C22"] = dict(
     jobs=[dict(name="e3::reward_flag_propagation", fn=jobs_e3.run_reward_flag)],
 )
 
+# --------------------------------------------------------------------------- C08
+PROPS["C08"] = dict(
+    functions=["revm::JournaledState::transfer (crates/revm/src/journaled_state.rs): every path of its MIR control-flow graph"],
+    bounds="all entry->return paths of the (acyclic) CFG; a store through a balance reference is classified by the origin of the stored value "
+           "(checked_sub(.., amount) payload = debit, checked_add / saturating_add / += amount = credit, anything else = free integer)",
+    outside="the per-transaction sum over all accounts (whole run), fee burning and blob fee accounting, selfdestruct and create_account_checkpoint balance moves, "
+            "reward/reimburse payments (journal + hash maps: not encodable, DESIGN §2); that debit and credit hit the intended two accounts (from/to identity is not tracked)",
+    assumptions=["paths returning a database error abort the transaction and are not constrained", "branch conditions abstracted to free choices",
+                 "z3 4.8.12 and cvc5 1.0 agree; a sat path is replayed on the real JournaledState by the native tool"],
+    jobs=[dict(name="e3::transfer_conservation", fn=jobs_e3.run_transfer_conservation)],
+)
+
 # --------------------------------------------------------------------------- C09
 PROPS["C09"] = dict(
     functions=["revm::handler::mainnet::last_frame_return::<SPEC, (), EmptyDB> (crates/revm/src/handler/mainnet/execution.rs) on a real Context",
@@ -312,6 +324,13 @@ CLAIMS = {
              "Stack depth is arity+1 / arity-1 per harness; the interpreter is assembled field by field with an 8-word stack buffer.",
         technique="Kani/CBMC bounded model checking of the real opcode functions against limb-wise 256-bit reference models (full operand space)",
         design_ref="DESIGN.md §5 C03"),
+    "C08": dict(
+        text="The one primitive through which calls move value, JournaledState::transfer, is searched over all paths of its MIR control-flow graph (z3 and cvc5) for an "
+             "outcome - success, OutOfFunds, OverflowPayment - on which the number of debits differs from the number of credits of the transferred amount; a model is "
+             "replayed on the real journaled state with balances at the 2^256 boundary.",
+        note="Partial: only `transfer` (the failed-transfer / overflowing-balance clause of the property); the transaction-level sum, fees and selfdestruct are outside.",
+        technique="SMT path search (z3+cvc5) over the MIR control-flow graph with debit/credit classification of balance stores; native replay",
+        engine="smt-mir", design_ref="DESIGN.md §5 C08"),
     "C09": dict(
         text="The transaction-level gas bookkeeping is decided on the real functions for all 64-bit values: last_frame_return (gas used <= limit, whole limit on a halt, "
              "unspent gas back on success/revert, refund only on success) and refund (final refund = min(recorded, spent/5 | spent/2)) by CBMC on a real Context; the "
@@ -368,7 +387,7 @@ CLAIMS = {
         engine="kani-cbmc + smt-mir",
         design_ref="DESIGN.md §5 C32"),
 }
-SMT_SERVES = {"C32", "C07", "C22", "C20", "C21", "C05", "C10", "C09"}
+SMT_SERVES = {"C32", "C07", "C22", "C20", "C21", "C05", "C10", "C09", "C08"}
 
 # --------------------------------------------------------------------------- not applicable (reason shown in MANIFEST.json)
 NOT_APPLICABLE = {
